@@ -22,6 +22,8 @@ import (
 
 	api "k8s.io/api/core/v1"
 	networking "k8s.io/api/networking/v1"
+	"k8s.io/apimachinery/pkg/util/intstr"
+	"sigs.k8s.io/controller-runtime/pkg/client"
 
 	convtypes "github.com/jcmoraisjr/haproxy-ingress/pkg/converters/types"
 	hatypes "github.com/jcmoraisjr/haproxy-ingress/pkg/haproxy/types"
@@ -247,8 +249,21 @@ func coqIngress(ing *networking.Ingress) string {
 		hx.Str(ing.Namespace), hx.Str(ing.Name), hx.Z(ing.CreationTimestamp.Unix()), class, hx.List(rules), hx.List(tls))
 }
 
-// coqWorld prints the cluster as the model sees it.
-func coqWorld(p *pipeline.Pipeline) string {
+// coqDIngress prints an ingress of Model/ConvDB.v: the ingress of Conv.v and spec.defaultBackend.
+func coqDIngress(ing *networking.Ingress) string {
+	db := "None"
+	if b := ing.Spec.DefaultBackend; b != nil && b.Service != nil {
+		port := b.Service.Port.Name
+		if port == "" {
+			port = strconv.Itoa(int(b.Service.Port.Number))
+		}
+		db = "(Some " + hx.Tuple(hx.Str(b.Service.Name), hx.Str(port)) + ")"
+	}
+	return fmt.Sprintf("{| d_ing := %s; d_db := %s |}", coqIngress(ing), db)
+}
+
+// coqWorld prints the cluster as the model sees it (db: as a dworld of Model/ConvDB.v).
+func coqWorld(p *pipeline.Pipeline, db bool) string {
 	var ings, svcs, eps, secs []string
 	objs := p.Objects()
 	sort.Slice(objs, func(i, j int) bool { return p.Key(objs[i]) < p.Key(objs[j]) })
@@ -256,7 +271,11 @@ func coqWorld(p *pipeline.Pipeline) string {
 		switch x := o.(type) {
 		case *networking.Ingress:
 			if p.IsValidIngress(x) {
-				ings = append(ings, coqIngress(x))
+				if db {
+					ings = append(ings, coqDIngress(x))
+				} else {
+					ings = append(ings, coqIngress(x))
+				}
 			}
 		case *api.Service:
 			var ports []string
@@ -287,6 +306,9 @@ func coqWorld(p *pipeline.Pipeline) string {
 			}
 		}
 	}
+	if db {
+		return fmt.Sprintf("{| dw_ings := %s; dw_svcs := %s; dw_eps := %s; dw_secrets := %s |}", hx.List(ings), hx.List(svcs), hx.List(eps), hx.List(secs))
+	}
 	return fmt.Sprintf("{| w_ings := %s; w_svcs := %s; w_eps := %s; w_secrets := %s |}", hx.List(ings), hx.List(svcs), hx.List(eps), hx.List(secs))
 }
 
@@ -295,7 +317,11 @@ var kindName = map[convtypes.ResourceType]string{
 	convtypes.ResourceService: "KService", convtypes.ResourceEndpoints: "KEndpoints", convtypes.ResourceSecret: "KSecret", convtypes.ResourcePod: "KPod",
 }
 
-func coqBatch(ch *convtypes.ChangedObjects) (string, bool) {
+func coqBatch(ch *convtypes.ChangedObjects, db bool) (string, bool) {
+	pi := coqIngress
+	if db {
+		pi = coqDIngress
+	}
 	var links []string
 	var kinds []string
 	for k := range ch.Links {
@@ -313,13 +339,16 @@ func coqBatch(ch *convtypes.ChangedObjects) (string, bool) {
 	}
 	var add, upd, del []string
 	for _, i := range ch.IngressesAdd {
-		add = append(add, coqIngress(i))
+		add = append(add, pi(i))
 	}
 	for _, i := range ch.IngressesUpd {
-		upd = append(upd, coqIngress(i))
+		upd = append(upd, pi(i))
 	}
 	for _, i := range ch.IngressesDel {
 		del = append(del, hx.Str(i.Namespace+"/"+i.Name))
+	}
+	if db {
+		return fmt.Sprintf("{| db_links := %s; db_add := %s; db_upd := %s; db_del := %s |}", hx.List(links), hx.List(add), hx.List(upd), hx.List(del)), true
 	}
 	return fmt.Sprintf("{| b_links := %s; b_add := %s; b_upd := %s; b_del := %s |}", hx.List(links), hx.List(add), hx.List(upd), hx.List(del)), true
 }
@@ -373,16 +402,45 @@ func modelConfig() world.Config {
 	return world.Config{MaxIngresses: 6, TLS: true, PortClash: true, EqualStamps: true, PathTypes: true}
 }
 
-// inModel tells whether the real run stayed inside the feature subset of the model.
-func inModel(p *pipeline.Pipeline) bool {
+// inModel tells whether the real run stayed inside the feature subset of the model
+// (db: Model/ConvDB.v, which has spec.defaultBackend).
+func inModel(p *pipeline.Pipeline, db bool) bool {
 	for _, o := range p.Objects() {
 		if ing, ok := o.(*networking.Ingress); ok {
-			if ing.Spec.DefaultBackend != nil || len(ing.Annotations) > 0 {
+			if len(ing.Annotations) > 0 {
+				return false
+			}
+			if b := ing.Spec.DefaultBackend; b != nil && (!db || b.Service == nil) {
 				return false
 			}
 		}
 	}
 	return true
+}
+
+// knownDefaultBackendHistory is the minimal in-model history of the known finding
+// C01/ingress-default-backend-not-pretracked: ingress ing2 owns the root path of the
+// default host through its spec.defaultBackend; ing1, which sorts before it, is created
+// with a spec.defaultBackend of its own. A fresh controller gives the root path to ing1.
+func knownDefaultBackendHistory() [][]pipeline.Change {
+	svc1, ep1 := world.Service("ns1", "svc1", world.SvcPort{Name: "http", Port: 80, TargetPort: intstr.FromInt(8080)}),
+		world.Endpoints("ns1", "svc1", world.EpPort{Name: "http", Port: 8080, Ready: []string{"10.1.0.1"}})
+	svc2, ep2 := world.Service("ns1", "svc2", world.SvcPort{Name: "http", Port: 80, TargetPort: intstr.FromInt(9090)}),
+		world.Endpoints("ns1", "svc2", world.EpPort{Name: "http", Port: 9090, Ready: []string{"10.1.0.2"}})
+	a := world.Ingress("ns1", "ing2", 20)
+	ba := world.Backend("svc1", "", 80)
+	a.Spec.DefaultBackend = &ba
+	b := world.Ingress("ns1", "ing1", 10)
+	bb := world.Backend("svc2", "", 80)
+	b.Spec.DefaultBackend = &bb
+	mk := func(o ...client.Object) []pipeline.Change {
+		var out []pipeline.Change
+		for _, x := range o {
+			out = append(out, pipeline.Change{Op: pipeline.Create, Obj: x})
+		}
+		return out
+	}
+	return [][]pipeline.Change{mk(svc1, ep1, svc2, ep2, a), mk(b)}
 }
 
 func main() {
@@ -479,9 +537,13 @@ func main() {
 	}
 
 	// ---- correspondence ----
-	for i := 0; i < nCorr; i++ {
-		cfg := modelConfig()
-		h := world.GenHistory(rng, cfg, 1+rng.Intn(5), 3)
+	// stream 1: the feature subset of Model/Conv.v; stream 2: with spec.defaultBackend,
+	// against Model/ConvDB.v, the in-model history of the known finding first
+	runCorr := func(h [][]pipeline.Change, db bool, sample bool) {
+		tag := "corr"
+		if db {
+			tag = "corrdb"
+		}
 		dir := filepath.Join(workdir, "c")
 		os.RemoveAll(dir)
 		p, err := pipeline.NewE(popts(dir, false))
@@ -497,45 +559,87 @@ func main() {
 				ok = false
 				break
 			}
-			if len(p.Last.Runs) != 1 || !inModel(p) {
+			if len(p.Last.Runs) != 1 || !inModel(p, db) {
 				ok = false
 				break
 			}
 			run := p.Last.Runs[0]
 			obs, jobs := coqObs(p)
-			w := coqWorld(p)
+			w := coqWorld(p, db)
 			if bi == 0 {
-				steps = append(steps, hx.Tuple("SFull "+w, obs))
+				if db {
+					steps = append(steps, hx.Tuple("DFull "+w, obs))
+				} else {
+					steps = append(steps, hx.Tuple("SFull "+w, obs))
+				}
 			} else {
 				if run.Changed.NeedFullSync {
 					ok = false
 					break
 				}
-				bt, okb := coqBatch(run.Changed)
+				bt, okb := coqBatch(run.Changed, db)
 				if !okb {
 					ok = false
 					break
 				}
-				steps = append(steps, hx.Tuple("SPartial "+w+" "+bt, obs))
+				if db {
+					steps = append(steps, hx.Tuple("DPartial "+w+" "+bt, obs))
+				} else {
+					steps = append(steps, hx.Tuple("SPartial "+w+" "+bt, obs))
+				}
 				partials++
 			}
 			jsteps = append(jsteps, map[string]interface{}{"changes": describe([][]pipeline.Change{b})[0], "objects": run.Changed.Objects, "observed": jobs})
 		}
 		p.Close()
 		if !ok || len(steps) == 0 {
-			res.Count("corr_skipped_outside_model")
-			continue
+			res.Count(tag + "_skipped_outside_model")
+			return
 		}
-		res.Count(fmt.Sprintf("corr_steps=%d", len(steps)))
+		res.Count(fmt.Sprintf("%s_steps=%d", tag, len(steps)))
+		if db {
+			ndb := 0
+			for _, o := range world.Final(h) {
+				if ing, isIng := o.(*networking.Ingress); isIng && ing.Spec.DefaultBackend != nil {
+					ndb++
+				}
+			}
+			res.Count(fmt.Sprintf("corrdb_final_default_backends=%d", min(ndb, 3)))
+		}
 		canon, _ := json.Marshal(world.EncodeHistory(h))
-		res.Seen("corr:"+string(canon), partials > 0)
-		if i < 2 {
-			res.Sample(5, map[string]interface{}{"corr_history": describe(h), "steps": jsteps})
+		res.Seen(tag+":"+string(canon), partials > 0)
+		if sample {
+			res.Sample(5, map[string]interface{}{tag + "_history": describe(h), "steps": jsteps})
 		}
 		st := steps
 		cw.Add(func(id int) string {
+			if db {
+				return fmt.Sprintf("CD {| did := %s; dsteps := %s |}", hx.N(id), hx.List(st))
+			}
 			return fmt.Sprintf("CH {| cid := %s; csteps := %s |}", hx.N(id), hx.List(st))
 		}, map[string]interface{}{"history": world.EncodeHistory(h), "steps": jsteps})
+	}
+	for i := 0; i < nCorr; i++ {
+		runCorr(world.GenHistory(rng, modelConfig(), 1+rng.Intn(5), 3), false, i < 2)
+	}
+	if nCorr > 0 {
+		// the model must reproduce the divergence of the real code on the known finding:
+		// the real incremental state differs from a fresh controller (checked here on the
+		// real pipeline), and the case file makes coqc check that ConvDB computes the very
+		// hosts the real incremental run holds
+		kh := knownDefaultBackendHistory()
+		if idx, _, err := diverges(kh, false, "kdb"); err == nil && idx >= 0 {
+			res.Count("corrdb_known_finding_diverges_on_real_code")
+		} else {
+			res.Count("corrdb_known_finding_does_not_diverge")
+		}
+		runCorr(kh, true, true)
+		nDB := o.Count(40, 1000)
+		for i := 0; i < nDB; i++ {
+			cfg := modelConfig()
+			cfg.DefaultBackend = true
+			runCorr(world.GenHistory(rng, cfg, 1+rng.Intn(5), 3), true, i < 1)
+		}
 	}
 	// ---- the tracker alone ----
 	if o.Replay == "" {
